@@ -170,11 +170,51 @@ func TestRefECDHEInterop(t *testing.T) {
 			var rs RefView
 			sid := gmref.Identity{Certs: [][]byte{cert.Certificate[0]}, TLSKey: key}
 			o = Run(GMEnd(cc, true, LibApp(true), &cv, nil),
-				RefEnd(false, sid, 9, func(q *gmref.Peer) { q.UseECDHE(); q.Suites = []uint16{suite}; q.RequestCert = auth != gmtls.NoClientCert }, &gmref.Script{Data: PingPong(false)}, &rs), &cv, &dummy, nil)
+				RefEnd(false, sid, 9, func(q *gmref.Peer) {
+					q.UseECDHE()
+					q.Suites = []uint16{suite}
+					q.RequestCert = auth != gmtls.NoClientCert
+				}, &gmref.Script{Data: PingPong(false)}, &rs), &cv, &dummy, nil)
 			if !o.C.Complete || !rs.Res.Completed || string(o.C.Read) != "pong" || string(rs.Peer.Received) != "ping" {
 				t.Errorf("lib client / ECDHE ref server suite %04x auth %v: %s ref=%+v seen=%v checks=%v", suite, auth, o.Describe(), rs.Res, rs.Peer.Seen, rs.Peer.Checks)
 			} else {
 				t.Logf("ok %04x %v: ref server checks %v; ref client checks %v", suite, auth, rs.Peer.Checks, rv.Peer.Checks)
+			}
+		}
+	}
+}
+
+func TestRefECDHECBCInterop(t *testing.T) {
+	p := Get()
+	for _, ver := range []uint16{0x0301, 0x0302, 0x0303} {
+		for _, suite := range []uint16{gmref.SuiteECDHEECDSACBC, gmref.SuiteECDHERSACBC256} {
+			cert, key := p.RSA, interface{}(p.RSAKey)
+			if suite == gmref.SuiteECDHEECDSACBC {
+				cert, key = p.ECDSA, interface{}(p.ECDSAKey)
+			}
+			for _, auth := range []gmtls.ClientAuthType{gmtls.NoClientCert, gmtls.RequireAndVerifyClientCert} {
+				sc := &gmtls.Config{Certificates: []gmtls.Certificate{cert}, Time: FixedTime, Rand: wire.NewRand(1), CipherSuites: []uint16{suite}, ClientAuth: auth, ClientCAs: p.StdRootsG, MinVersion: ver, MaxVersion: ver}
+				var sv, dummy View
+				var rv RefView
+				id := gmref.Identity{Certs: [][]byte{p.StdClient.Certificate[0]}, TLSKey: p.StdClient.PrivateKey}
+				o := Run(RefEnd(true, id, 7, func(q *gmref.Peer) { q.UseECDHECBC(ver); q.Suites = []uint16{suite} }, &gmref.Script{SendClientCert: true, Data: PingPong(true)}, &rv),
+					GMEnd(sc, false, LibApp(false), &sv, nil), &dummy, &sv, nil)
+				if !o.S.Complete || !rv.Res.Completed || string(o.S.Read) != "ping" || string(rv.Peer.Received) != "pong" || !rv.Peer.Checks["ske-signature"] {
+					t.Errorf("ECDHE-CBC %04x ref client / lib server suite %04x auth %v: %s ref=%+v seen=%v checks=%v", ver, suite, auth, o.Describe(), rv.Res, rv.Peer.Seen, rv.Peer.Checks)
+				}
+				cc := &gmtls.Config{RootCAs: p.StdRootsG, ServerName: ServerName, Time: FixedTime, Rand: wire.NewRand(2), CipherSuites: []uint16{suite}, Certificates: []gmtls.Certificate{p.StdClient}, MinVersion: ver, MaxVersion: ver}
+				var cv View
+				var rs RefView
+				sid := gmref.Identity{Certs: [][]byte{cert.Certificate[0]}, TLSKey: key}
+				o = Run(GMEnd(cc, true, LibApp(true), &cv, nil),
+					RefEnd(false, sid, 9, func(q *gmref.Peer) {
+						q.UseECDHECBC(ver)
+						q.Suites = []uint16{suite}
+						q.RequestCert = auth != gmtls.NoClientCert
+					}, &gmref.Script{Data: PingPong(false)}, &rs), &cv, &dummy, nil)
+				if !o.C.Complete || !rs.Res.Completed || string(o.C.Read) != "pong" || string(rs.Peer.Received) != "ping" {
+					t.Errorf("lib client / ECDHE-CBC %04x ref server suite %04x auth %v: %s ref=%+v seen=%v checks=%v", ver, suite, auth, o.Describe(), rs.Res, rs.Peer.Seen, rs.Peer.Checks)
+				}
 			}
 		}
 	}
